@@ -652,6 +652,7 @@ class Node(object):
         self.number_of_individuals -= 1
         reneging_individual.queue_size_at_departure = self.number_of_individuals
         reneging_individual.exit_date = self.now
+        self.reset_class_change(reneging_individual)
         self.write_reneging_record(reneging_individual)
         self.reset_individual_attributes(reneging_individual)
         self.simulation.statetracker.change_state_renege(self, next_node, reneging_individual, False)
